@@ -325,16 +325,18 @@ inline auto coro_queue::create_suspend_point(Fn &&fn)
         suspend_point<void> ss;
         if constexpr(std::is_void_v<ret_v>) {
             fn();
+            //keep the order in which fn() queued them (taking them from the back reversed it)
             while (instance->_queue.size() > sz) {
-                ss << instance->_queue.back();
-                instance->_queue.pop_back();
+                ss << std::coroutine_handle<>(instance->_queue[sz]);
+                instance->_queue.erase(instance->_queue.begin()+sz);
             }
             return ss;
         } else {
             ret_v v = fn();
+            //keep the order in which fn() queued them (taking them from the back reversed it)
             while (instance->_queue.size() > sz) {
-                ss << instance->_queue.back();
-                instance->_queue.pop_back();
+                ss << std::coroutine_handle<>(instance->_queue[sz]);
+                instance->_queue.erase(instance->_queue.begin()+sz);
             }
             return suspend_point<ret_v>(std::move(ss), std::move(v));
         }
